@@ -873,6 +873,9 @@ fn run_typed<T: CellTy>(t: &SerdeTrace, prop: &str, stats: &mut SStats) -> Resul
     }
     let arr: TooDee<T> = build_array(t);
     stats.cells += n as u64;
+    if n > 16384 {
+        stats.tf("array_over_16384_cells");
+    }
     // ---- serialise
     let wire = serialise(&arr, &t.ser, stats)?;
     let wire = match wire {
@@ -1079,6 +1082,9 @@ fn run_view(t: &SerdeTrace, prop: &str, stats: &mut SStats) -> Result<bool, SVio
         return Ok(false);
     }
     stats.cells += n as u64;
+    if (w.end.0 - w.start.0) * (w.end.1 - w.start.1) > 16384 {
+        stats.tf("view_over_16384_cells");
+    }
     let (wire, expected) = if mutable {
         let v = arr.view_mut(w.start, w.end);
         let wire = serialise(&v, &t.ser, stats)?;
